@@ -292,8 +292,18 @@ pub fn gen_history(cfg: &Config, run_seed: u64) -> Vec<Op> {
 pub fn gen_small_world(rng: &mut Rng, slot: u8, max_ops: u64) -> Vec<Op> {
     let mut out = Vec::new();
     let n = rng.range(2, max_ops);
-    for _ in 0..n {
-        match rng.below(10) {
+    // Half of the worlds are built in phases (fill, remove, refill) so that slots are reused:
+    // generations differ between rows and the free list is often non-empty.
+    let phased = rng.chance(1, 2);
+    for i in 0..n {
+        let phase = if phased { (i * 3 / n.max(1)) as u64 } else { 3 };
+        let roll = match phase {
+            0 => rng.below(5),          // fill: insert / extend
+            1 => 5 + rng.below(1) * 4,  // remove
+            2 => *rng.pick(&[0u64, 1, 3, 6, 7, 5]),
+            _ => rng.below(10),
+        };
+        match roll {
             0..=2 => out.push(Op::Insert { slot, site: rng.below(g::INSERT_SITES.len() as u64) as u16, seed: rng.next_u64() }),
             3..=4 => out.push(Op::Extend {
                 slot,
